@@ -14,10 +14,13 @@ import sys
 from .common import LEAN, SRC, add_failure, bump, new_outcome
 
 PROP = "C12"
-PROPS_FILES = ["CogentModel/Props/C12.lean"]
-LEAN_TARGETS = ["CogentModel.Props.C12"]
+PROPS_FILES = ["CogentModel/Props/C12.lean", "CogentModel/Props/C12Gen.lean"]
+LEAN_TARGETS = ["CogentModel.Props.C12", "CogentModel.Props.C12Gen"]
 DRIVER = "drv_c12"
 TRUSTED = [
+    "translator/c12_code2lean.py (python ast -> Lean for genetic_code / new_genetic_code translate, sixframes, __getitem__, is_stop, "
+    "_simple_rc and the Sequence stop-handling methods) with its primitive semantics Model/GeneticCodePrims.lean (Python slices, "
+    "range, dict.get, str methods; the dictionaries built by the constructors are compared with the runtime objects each run)",
     "translator/tables2lean.py (ast extraction of the code/IUPAC tables; the generated tables are compared with the "
     "runtime objects of the four modules on every run)",
     "hand-written model lean/CogentModel/Model/GeneticCode.lean of KmerAlphabet index arithmetic, the byte-translate "
@@ -33,6 +36,7 @@ ASSUMPTIONS = [
 ]
 
 GEN_PATH = LEAN / "CogentModel" / "Gen" / "C12Tables.lean"
+GEN_CODE_PATH = LEAN / "CogentModel" / "Gen" / "C12Code.lean"
 BASES = "TCAG"
 EXT_ALPHA = "TCAG-?NRYtaU"  # canonical, gap, missing, ambiguity, lower case, RNA
 IUPAC_SETS = {
@@ -60,7 +64,16 @@ def generate(ctx):
     ctx.notes += _state["notes"]
     if _state["changed"]:
         ctx.notes.append("Gen/C12Tables.lean was rewritten (source tables changed or first run)")
-    return list(_state["probs"])
+    problems = list(_state["probs"])
+    # the pure-Python translation / stop-handling functions -> Gen/C12Code.lean (Props/C12Gen.lean proves every
+    # generated definition equal to the hand model)
+    from translator import c12_code2lean
+
+    text, probs = c12_code2lean.translate(SRC.parent)
+    if c12_code2lean.write_if_changed(GEN_CODE_PATH, text):
+        ctx.notes.append("Gen/C12Code.lean was rewritten (translated functions differ from the last generated text, or first run)")
+    problems += [f"c12_code2lean: {p}" for p in probs]
+    return problems
 
 
 # --------------------------------------------------------------------------
@@ -592,7 +605,114 @@ def correspondence(ctx):
             out["nontrivial"].add(("coll", str(sorted(rq.items()))))
             if isinstance(real, dict):
                 bump(out, "errors", real["err"])
+    _corr_generated(ctx, out, drv, rng, both)
     return out
+
+
+def _gapped(rng, code, moltype):
+    """a (mostly) coding sequence with gap runs; ends in a stop codon (possibly followed / interrupted by gaps) in 60 %"""
+    tbl = _oracle_table(_code_seqs()[code])
+    stops = [c for c, a in tbl.items() if a == "*"] or ["GCT"]
+    n = rng.choice([3, 6, 9, 12]) if rng.random() < 0.7 else rng.randint(0, 13)
+    s = _rand_seq(rng, n, rng.choice(["canon", "stops"]))
+    q = rng.random()
+    if n >= 3 and q < 0.6:
+        s = s[: n - 3] + rng.choice(stops)
+    chars = list(s)
+    for _ in range(rng.choice([0, 0, 1, 1, 2, 3])):
+        pos = rng.choice([len(chars), len(chars), rng.randint(0, len(chars))]) if chars else 0
+        chars[pos:pos] = list(rng.choice(["-", "--", "---", "-", "?"]))
+    s = "".join(chars)
+    return s.replace("T", "U") if moltype == "rna" else s
+
+
+def _corr_generated(ctx, out, drv, rng, both):
+    """10. the TRANSLATED functions (Gen/C12Code.lean: re-translated from the source on this run, proved equal to the hand
+    model in Props/C12Gen.lean) executed by the driver vs the real functions -- also where no theorem reaches: negative
+    starts, items of any length, gapped / RNA sequences (regular-expression branch of trim_stop_codon)"""
+    from cogent3.core import genetic_code as og
+    from cogent3.core import new_genetic_code as ng
+
+    def canon_item(x, sort):
+        if isinstance(x, str):
+            return x
+        return sorted(x) if sort else list(x)
+
+    reqs, reals, meta = [], [], []
+
+    def add(fn, real, sort=False, **kw):
+        reqs.append(("gen", dict(fn=fn, **kw)))
+        reals.append(real)
+        meta.append((fn, sort))
+
+    codes = rng.sample(both, min(len(both), 6))
+    for code in codes:
+        o, n = _ogc(code), _ngc(code)
+        add("objects", dict(
+            old_codons=[[k, v] for k, v in o.codons.items()], old_synonyms=[[k, list(v)] for k, v in o.synonyms.items()],
+            old_start_codons=[[k, v] for k, v in o.start_codons.items()],
+            new_codon_to_aa=[[k, v] for k, v in n._codon_to_aa.items()],
+            new_aa_to_codon=[[k, sorted(v)] for k, v in n._aa_to_codon.items()]), code=code, s="")
+        items = list("ACDEFGHIKLMNPQRSTVWY*X-?BZ") + ["", "AT", "ATGA", "TAA", "taa", "UGA", "---", "A-G", "NNN", "AUG", "ttg", "CTG"]
+        items += ["".join(rng.choice(EXT_ALPHA) for _ in range(3)) for _ in range(12)]
+        for it in items:
+            add("old_getitem", _call(lambda: canon_item(o[it], False)), code=code, s=it)
+            add("new_getitem", _call(lambda: canon_item(n[it], True)), sort=True, code=code, s=it)
+            add("old_is_stop", _call(lambda: bool(o.is_stop(it))), code=code, s=it)
+            add("new_is_stop", _call(lambda: bool(n.is_stop(it))), code=code, s=it)
+            add("old_is_start", _call(lambda: bool(o.is_start(it))), code=code, s=it)
+    for _ in range(40):
+        s = _rand_seq(rng, rng.randint(0, 15), rng.choice(["canon", "any"]))
+        add("old_simple_rc", _call(lambda: og._simple_rc(s)), code=1, s=s)
+        m = "".join(rng.choice("M--m*") for _ in range(rng.randint(0, 66)))
+        add("new_get_start_codon_indices", _call(lambda: list(ng._get_start_codon_indices(m))), code=1, s=m)
+    for _ in range(ctx.budget(150, 1500)):
+        code = rng.choice(both)
+        s = _rand_seq(rng, rng.randint(0, 20), rng.choice(["canon", "stops", "degen", "any"]))
+        start = rng.randint(-4, len(s) + 2) if rng.random() < 0.5 else rng.randint(0, 2)
+        rc = rng.random() < 0.5
+        add("new_translate", real_translate("new", code, s, start, rc), code=code, s=s, start=start, rc=rc)
+        add("old_translate", real_translate("old", code, s, start), code=code, s=s, start=start)
+        if rng.random() < 0.3:
+            add("new_sixframes", real_sixframes("new", code, s), code=code, s=s)
+            if set(s) <= set("ACGTNRYWSKMBDHV-?"):
+                add("old_sixframes", real_sixframes("old", code, s), code=code, s=s)
+    flags = list(itertools.product([False, True], repeat=3))
+    for _ in range(ctx.budget(120, 1200)):
+        code = rng.choice(both)
+        moltype = rng.choice(["dna", "dna", "rna"])
+        s = _gapped(rng, code, moltype)
+        strict = rng.random() < 0.5
+        for impl, mk, gcf in (("new", _new_seq, _ngc), ("old", _old_seq, _ogc)):
+            mt = impl + moltype
+            add(f"{impl}_seq_has_terminal_stop", _call(lambda: bool(mk(s, moltype).has_terminal_stop(gc=gcf(code), strict=strict))),
+                code=code, s=s, mt=mt, strict=strict)
+            add(f"{impl}_seq_trim_stop_codon", _call(lambda: str(mk(s, moltype).trim_stop_codon(gc=gcf(code), strict=strict))),
+                code=code, s=s, mt=mt, strict=strict)
+        io, is_, ts = rng.choice(flags)
+        add("new_seq_get_translation", real_seq_tr("new", code, s.replace("U", "T"), io, is_, ts, moltype), code=code, s=s, mt="new" + moltype,
+            strict=False, incomplete_ok=io, include_stop=is_, trim_stop=ts)
+    for (cmd, rq), real, mod, (fn, sort) in zip(reqs, reals, drv.batch(reqs), meta):
+        out["evaluations"] += 1
+        bump(out, "translated_fn", fn)
+        if sort and isinstance(mod, list):
+            mod = sorted(mod)
+        if fn == "objects" and isinstance(mod, dict):
+            mod = dict(mod, new_aa_to_codon=[[k, sorted(v)] for k, v in mod["new_aa_to_codon"]])
+        if isinstance(real, dict) and isinstance(mod, dict) and "err" in real and "err" in mod and fn != "objects":
+            # the translation keeps the exception classes it knows; anything else is "Exception"
+            if mod["err"] == "Exception" or real["err"] == mod["err"] or {real["err"], mod["err"]} <= {"TypeError", "InvalidCodonError"}:
+                real = mod
+        if real != mod:
+            small = {k: v for k, v in rq.items()}
+            add_failure(out, "corr", f"translated {fn} (Gen/C12Code.lean) differs from the real function", small, _short(mod) if not isinstance(mod, dict) or "err" in mod else "(dicts)",
+                        _short(real) if not isinstance(real, dict) or "err" in real else "(dicts)", confirmed=False)
+        elif real not in ("", [], None):
+            out["nontrivial"].add(("gen", fn, str(sorted(rq.items()))))
+            if isinstance(real, dict) and "err" in real:
+                bump(out, "errors", real["err"])
+            if "-" in rq.get("s", "") and fn.endswith("trim_stop_codon") and real != rq["s"]:
+                bump(out, "translated_regex_branch", fn)
 
 
 def _real_coll_op(entry, op, code, rows, strict):
